@@ -315,7 +315,9 @@ fn rnd_case(rep: &Report, ck: &str, c: &RndCase) -> CheckResult {
 
 pub fn run(ctx: &Ctx, rep: &Report) -> Meta {
     // fresh keys from generate(), each with bases and an issuer-modulus commitment key
-    let n_gen = ctx.tier.pick(6usize, 40usize);
+    // key generation is the expensive operation here (seconds each): 128 keys in quick, 640 in thorough; a defect of
+    // the prime search that shows once in a hundred keys is likely to be seen only by the thorough tier
+    let n_gen = ctx.tier.pick(128usize, 640usize);
     let items: Vec<usize> = (0..n_gen).collect();
     par_items(ctx, rep, "generated-keys-CL1024", &items, |&i| key_case::<CL1024Sha256>(rep, "generated-keys-CL1024", i, 1 + i % 8, None));
     // keys built from fixture primes through the public constructors, all three suites
@@ -359,7 +361,7 @@ pub fn run(ctx: &Ctx, rep: &Report) -> Meta {
         }
     }
     Meta {
-        rule: "fresh KeyPair::<CL03<CL1024>>::generate() keys (6 quick / 40 thorough; one CL2048 key in thorough), keys assembled from pre-computed safe primes for CL1024 / CL2048 / CL3072, Bases::generate (1..8, and every count 9..=70 quick / 9..=200 thorough), commitment keys with as many bases over the issuer modulus, and over an own modulus (factors through hook H2, 1..5 and 17 / 18 / 19 bases); \
+        rule: "fresh KeyPair::<CL03<CL1024>>::generate() keys (128 quick / 640 thorough; one CL2048 key in thorough), keys assembled from pre-computed safe primes for CL1024 / CL2048 / CL3072, Bases::generate (1..8, and every count 9..=70 quick / 9..=200 thorough), commitment keys with as many bases over the issuer modulus, and over an own modulus (factors through hook H2, 1..5 and 17 / 18 / 19 bases); \
                oracle (own Miller-Rabin with 40 fixed bases + GMP, own Jacobi symbol and gcd): N = p q, p != q, p, q, (p-1)/2, (q-1)/2 prime, |p| = |q| = SECPARAM + 1 bits; b, c, a_i, h, g_i in (1, N), coprime to N, squares modulo p and q, pairwise distinct; h generates QR_N; \
                byte round trips of pk, sk, signature and JSON round trips of pk, sk, key pair, commitment key, bases, signature; commitment randomness of exactly ln bits; random_bits(n) of exactly n bits, rand_int(a, b) in [a, b] reaching both ends on tiny ranges, random_number(n) < n, random_prime(n) prime of n bits, random_qr a residue; \
                non-trivial = every generated key / parameter set / random-helper case; evaluations = judgements"
